@@ -273,6 +273,8 @@ class Funcs:
             node = _NoAux
         m = self.malform
         if m is not None:
+            if m == 'len0':
+                return ()
             if m == 'len1':
                 return (list(ch),)
             if m == 'len4':
